@@ -26,6 +26,36 @@ MUTANTS = [
     ("C15", "areneigh-no-wrap-test", P + "rdgridspace.py", "        if self._boundary_conditions[\"z\"] == \"periodical\" :\n            dz = min(dz, abs(self.d-dz))", "        dz = min(dz, abs(self.d-dz))", "C15.DISP"),
     ("C01", "get-edge-directed", P + "rdgraphspace.py", "            if (edge.i==i and edge.j==j) or (edge.i==j and edge.j==i) :", "            if (edge.i==i and edge.j==j) :", "C01.NEIGH"),
     ("C01", "graph-neighbours-above-only", P + "kinetics.py", "        if j != position :\n            if system.space.get_edge(position, j) is not None :", "        if j > position :\n            if system.space.get_edge(position, j) is not None :", "C01.NEIGH"),
+    # ---- rules added in round 8
+    ("C01", "direction-pair-skipped", "src/strengths/engines/strengths_engine/src/Euler3D.hpp",
+     "if(mesh_neighbors[i*6+n] != -1)\n", "if(mesh_neighbors[i*6+n] != -1 && !((n%2) == 1 && mesh_neighbors[i*6+n] == mesh_neighbors[i*6+n-1]))\n",
+     "C01.PHASE"),
+    ("C02", "neighbour-list-reversed", "src/strengths/engines/strengths_engine/src/SimulationAlgorithmGraphBase.hpp",
+     "          mesh_neighbor_dst[edge_j[i]].push_back(edge_dst[i]);\n          }\n",
+     "          mesh_neighbor_dst[edge_j[i]].push_back(edge_dst[i]);\n          }\n      for(int i=0; i<n_meshes; i++) mesh_neighbor_sfc[i].pop_back();\n",
+     "C02.NBR-TABLE"),
+    ("C05", "unitarray-iterable", "src/strengths/units.py",
+     "    def __len__(self) :\n        return len(self.value)",
+     "    def __iter__(self) :\n        return iter([self.get_at(i) for i in range(len(self._value))])\n\n    def __len__(self) :\n        return len(self.value)",
+     "C05.REFLECTED"),
+    ("C10", "engine-keeps-callers-script", "src/strengths/librdengine.py",
+     "self._script = script.copy()", "self._script = script", "C10.OWN"),
+    ("C14", "correction-skipped-for-small-totals", "src/strengths/engines/strengths_engine/src/engine.cpp",
+     "    if(delta == 0) continue;\n", "    if(delta == 0) continue;\n    if(tot_species[s] < 1) continue;\n", "C14.COUNT"),
+    ("C15", "kd-second-opinion", "src/strengths/engines/strengths_engine/src/SimulationAlgorithm3DBase.hpp",
+     "                    if(j==-1)\n", "                    if(j==-1 || j < i - w*h*d)\n", "C15.NBR-USE"),
+    ("C17", "supeq-loses-last-sample", "src/strengths/rdoutput.py",
+     "        if t==self.t.get_at(self.nsamples()-1) :\n            return self.nsamples()-1\n", "", "C17.TILING"),
+    ("C17", "labels-fold-case", "src/strengths/rdnetwork.py",
+     "if self.species[i].label == species :", "if self.species[i].label.lower() == species.lower() :", "C17.LABEL"),
+    ("C18", "value-kept-as-given", "src/strengths/units.py",
+     "            self._value = float(v)", "            self._value = v", "C18.PRINT"),
+    ("C19", "zero-means-empty-side", "src/strengths/rdnetwork.py",
+     'tokens[0].strip() == "")', 'tokens[0].strip() in ("", "0"))', "C19.ACCUM"),
+    ("C20", "tuple-environments-unvalidated", "src/strengths/rdnetwork.py",
+     "        if isarray(environments) :\n            if len(environments) == 0 :",
+     "        if type(environments) == tuple :\n            self._environments = environments\n            return\n        if isarray(environments) :\n            if len(environments) == 0 :",
+     "C20.ENUM"),
     # ---- rules added in round 7
     ("C01", "rates-skipped-in-empty-node", E + "EulerGraph.hpp", "            for(int r=0; r<n_reactions; r++)\n                rr[r] = ReactionRate(i, r);", "            bool empty_node = (mesh_x[i*n_species] == 0);\n            for(int r=0; r<n_reactions; r++)\n                if(!empty_node) rr[r] = ReactionRate(i, r);", "C01.PHASE"),
     ("C06", "computed-dtype", P + "units.py", "            self._value = np.array(v, dtype=float)", "            self._value = np.array(v, dtype=getattr(v, \"dtype\", float))", "C06.LOSSY"),
